@@ -245,7 +245,9 @@ def judge_grid(d):
     if d["form"] == "single":
         rng = [rng[0]] * 3
     quats = normalize_rotations(arg)
-    ns = [int(mx / st_) if st_ > 0 else 0 for mx, st_ in rng]
+    # angles -max, ..., max in steps: floor(max / step) steps each way (exact multiples given in decimals, such as 1.2 / 0.4,
+    # count as whole)
+    ns = [int(math.floor(mx / st_ + 1e-9)) if st_ > 0 else 0 for mx, st_ in rng]
     sizes = [2 * n + 1 for n in ns]
     tag = f"ranges={arg}"
     if quats.shape != (sizes[0] * sizes[1] * sizes[2], 4):
@@ -361,6 +363,8 @@ def grid_cases(draw):
         mx = step * draw(st.integers(0, 2)) + draw(st.sampled_from([0.0, 0.0, 0.4 * step]))
         if draw(st.sampled_from([False, False, True])):
             mx, step = 0.0, 0.0
+        elif draw(st.integers(0, 3)) == 0:
+            mx, step = draw(st.sampled_from([(0.3, 0.1), (1.2, 0.4), (3.3, 1.1), (0.6, 0.2), (0.9, 0.3), (2.4, 0.8)]))
         ranges.append([mx, step])
     if form == "single" and ranges[0][1] == 0:
         ranges[0] = [10.0, 5.0]
